@@ -558,6 +558,12 @@ func (r *Raft) Stop() {
 	// Stop accepting RPCs.
 	r.transport.Shutdown()
 
+	// Goroutines that send requests to peers and handlers of requests that arrived before the
+	// transport was shut down are not waited for above. They use the log and the snapshot files
+	// with the lock held, so the files may only be closed with the lock held as well.
+	r.mu.Lock()
+	defer r.mu.Unlock()
+
 	if err := r.log.Close(); err != nil {
 		r.logger.Errorf("failed to close log: %v", err)
 	}
@@ -1355,6 +1361,11 @@ func (r *Raft) sendRequestVoteToPeers() {
 func (r *Raft) sendRequestVote(id string, address string, votes *int, prevote bool) {
 	r.mu.Lock()
 	defer r.mu.Unlock()
+
+	// The node may have been stopped before this goroutine got to run: the log is closed then.
+	if r.state == Shutdown {
+		return
+	}
 
 	// Do not send requests to non-voting members and only send
 	// requests if this node is a voting member of the cluster.
